@@ -8,7 +8,7 @@ for d in sorted(glob.glob("/verif/seeded/*")):
     cid = name.split("-")[0]
     if only and cid not in only:
         continue
-    out = subprocess.run(["/verif/tools/seedcheck.sh", d + "/patch.diff", cid, "quick"], capture_output=True, text=True).stdout.strip()
+    out = subprocess.run(["/verif/tools/seedcheck.sh", d + "/patch.diff", cid, "quick"], capture_output=True, text=True, errors="replace").stdout.strip()
     meta = json.load(open(d + "/meta.json"))
     meta["check_result"] = out[:600]
     json.dump(meta, open(d + "/meta.json", "w"), indent=1)
